@@ -10,6 +10,7 @@ verus! {
 pub open spec fn call_gate<Req, Res, E>(tr: Trace<Req, Res, E>) -> bool { tr.created }
 pub open spec fn await_gate<Req, Res, E>(tr: Trace<Req, Res, E>) -> bool { true }
 //@include inner.rs
+//@include tokio_sleep.rs
 //@include events.rs
 
 // ---- unit prelude: ALL of the timing is ASSUMED here (tokio's timer): timeout(d, f) created at t0 either lets f
@@ -27,12 +28,38 @@ impl<Req, Res, E> TimeoutFut<Req, Res, E> {
             r is Err ==> *final(tr) == (Trace { ev: old(tr).ev.push(Ev::TimedOut(self.d)), timer: Some(self.d), awaits_before_timer: old(tr).blocked, inner_dropped: true, ..*old(tr) }),
     { unimplemented!() }
 }
-/// R15: the non-cancelling branch (tokio::spawn + oneshot + tokio::select!) is outside the dialect: it may make the
-/// inner call and returns an arbitrary value; nothing is claimed for executions through it
+/// R17: the non-cancelling branch. `tokio::spawn(async move { B })` runs B in line (the detached task runs to completion:
+/// tokio, assumed) and `tokio::select!` is a nondeterministic choice between "the task's result has arrived" and "the timer fired".
+pub struct OneTx<Res, E> { pub p: core::marker::PhantomData<(Res, E)> }
+pub struct OneRx<Res, E> { pub p: core::marker::PhantomData<(Res, E)> }
+pub struct RecvError {}
 #[verifier::external_body]
-pub fn vx_opaque_noncancel<Req, Res, E>(inner: Inner<Req, Res, E>, req: Req, d: Duration, Tracked(tr): Tracked<&mut Trace<Req, Res, E>>) -> (r: Option<Result<Res, E>>)
-    ensures final(tr).opaque && final(tr).created == old(tr).created,
+pub fn oneshot_channel<Req, Res, E>(Tracked(tr): Tracked<&mut Trace<Req, Res, E>>) -> (r: (OneTx<Res, E>, OneRx<Res, E>))
+    ensures *final(tr) == (Trace { tx_alive: true, ..*old(tr) }),
 { unimplemented!() }
+impl<Res, E> OneTx<Res, E> {
+    #[verifier::external_body]
+    pub fn send<Req>(self, v: Result<Res, E>, Tracked(tr): Tracked<&mut Trace<Req, Res, E>>) -> (r: Result<(), Result<Res, E>>)
+        ensures *final(tr) == (Trace { queue: old(tr).queue.push((0usize, v)), tx_alive: false, ..*old(tr) }),
+    { unimplemented!() }
+}
+impl<Res, E> OneRx<Res, E> {
+    /// the receiver awaited inside select!: yields the value the detached task sent
+    #[verifier::external_body]
+    pub fn vx_await<Req>(self, Tracked(tr): Tracked<&mut Trace<Req, Res, E>>) -> (r: Result<Result<Res, E>, RecvError>)
+        requires old(tr).queue.len() > 0,
+        ensures r matches Ok(v) ==> v == old(tr).queue[0].1, r is Ok,
+            *final(tr) == (Trace { queue: old(tr).queue.drop_first(), last_recv: Some(old(tr).queue[0]), ..*old(tr) }),
+    { unimplemented!() }
+}
+#[verifier::external_body]
+pub fn vx_select2<Req, Res, E>(c1: bool, Tracked(tr): Tracked<&mut Trace<Req, Res, E>>) -> (r: u8)
+    ensures *final(tr) == *old(tr), r <= 2, r == 0 ==> old(tr).queue.len() > 0, r == 1 ==> c1, r == 2 ==> old(tr).queue.len() == 0 && !c1,
+{ unimplemented!() }
+pub fn vx_branch_disabled() requires false { }
+/// a select! branch that cannot be taken
+#[verifier::external_body]
+pub fn vx_never<T>() -> (r: T) requires false { unimplemented!() }
 /// T: TimeoutFn<Req> — the configured source, by the contract of its two implementations (proved below)
 pub struct TimeoutSource { pub id: Ghost<int> }
 pub uninterp spec fn timeout_spec<Req>(s: TimeoutSource, req: Req) -> Duration;
@@ -75,13 +102,19 @@ impl<Req, Res, E> TimeLimiter<Req, Res, E> {
     pub fn call(&mut self, req: Req, clk: &mut Clock, Tracked(tr): Tracked<&mut Trace<Req, Res, E>>) -> (result: Result<Res, TimeLimiterError<E>>)
         requires old(tr).fresh(), old(self).inner.ready@,
         ensures
-            final(tr).opaque <==> !old(self).config.cancel_running_future,   // #cancel_flag_selects_the_mode [C06]
-            !final(tr).opaque ==> final(tr).calls == 1 && final(tr).last_req == Some(req),   // #forwards_the_request_once_unchanged [C06,C20]
-            !final(tr).opaque ==> final(tr).timer == Some(timeout_spec(old(self).config.timeout_source, req)) && final(tr).awaits_before_timer == 0,   // #deadline_is_this_requests_timeout_and_starts_at_arrival [C06]
-            !final(tr).opaque ==> (match result {
+            final(tr).calls == 1 && final(tr).last_req == Some(req),   // #forwards_the_request_once_unchanged_in_both_modes [C06,C20]
+            old(self).config.cancel_running_future ==> final(tr).timer == Some(timeout_spec(old(self).config.timeout_source, req)) && final(tr).awaits_before_timer == 0 && final(tr).spawned == 0,   // #cancel_mode_deadline_is_this_requests_timeout_and_starts_at_arrival [C06]
+            old(self).config.cancel_running_future ==> (match result {
                 Ok(v) => final(tr).last_done == Some(Ok::<Res, E>(v)) && !final(tr).inner_dropped,
                 Err(TimeLimiterError::Inner(e)) => final(tr).last_done == Some(Err::<Res, E>(e)) && !final(tr).inner_dropped,
-                Err(TimeLimiterError::Timeout) => final(tr).inner_dropped && final(tr).done == 0 }),   // #inner_result_if_in_time_else_timeout_error_and_inner_dropped [C06,C20]
+                Err(TimeLimiterError::Timeout) => final(tr).inner_dropped && final(tr).done == 0 }),   // #cancel_mode_inner_result_if_in_time_else_timeout_error_and_inner_dropped [C06,C20]
+            // non-cancelling mode: the inner call is made once inside the detached task and is never dropped; the caller gets the
+            // task's result, or the timeout error after a timer of exactly this request's timeout
+            !old(self).config.cancel_running_future ==> final(tr).spawned == 1 && !final(tr).inner_dropped && final(tr).done == 1,   // #non_cancelling_mode_lets_the_inner_call_run_to_completion_in_a_detached_task [C06]
+            !old(self).config.cancel_running_future ==> (match result {
+                Ok(v) => final(tr).last_done == Some(Ok::<Res, E>(v)) && final(tr).slept == 0,
+                Err(TimeLimiterError::Inner(e)) => final(tr).last_done == Some(Err::<Res, E>(e)) && final(tr).slept == 0,
+                Err(TimeLimiterError::Timeout) => final(tr).slept == timeout_spec(old(self).config.timeout_source, req).nanos && final(tr).last_recv is None }),   // #non_cancelling_mode_result_if_it_arrives_else_timeout_after_this_requests_timeout [C06,C20]
             final(self).config == old(self).config,   // #frame
     //@body TimeLimiter::call@Service
 }
